@@ -165,6 +165,18 @@ _c.ensures += [
     "trigger=lambda f: f.entered)))" % FO,
 ]
 
+# ---------------------------------------------------------------- ExEn: the same split, stated from the sources' side
+# (appended; the existing clauses give exits / enters / reexens as slices, i.e. indexed by the RESULT lists; the bracket
+# argument needs them indexed by nears / far.outline, and that nears and far.outline agree above the split point)
+_x = _first("Framer.ExEn")
+_W = "(len(nears) - len(result[0]))"
+_x.ensures += [
+    "forall(lambda k: implies(%s <= k and k < len(nears), nears[k] is result[0][k - %s]))" % (_W, _W),
+    "implies(len(result[1]) > 0, %s <= len(far.outline) and forall(lambda k: implies(%s <= k and k < len(far.outline), "
+    "far.outline[k] is result[1][k - %s])))" % (_W, _W, _W),
+    "forall(lambda j: implies(0 <= j and j < %s and j < len(far.outline), nears[j] is far.outline[j]))" % _W,
+]
+
 # ---------------------------------------------------------------- Transiter.action: frame additions on the first variant
 _t = REG.contracts[(FA, "Transiter.action")][0]
 FR = B.FR
@@ -172,10 +184,15 @@ _t.modifies += [ENTERED_ANY, FR + ".altbad"]
 
 # ---------------------------------------------------------------- the statement: bracket invariant (second variants)
 SUSPENDED = "{f}.actives is not {f}.active.outline"
-BRACKET = ("forall(Ref('Frame'), lambda f: implies(f.framer is {f}, iff(f.entered, member({o}, f))), "
+# C05 class invariant: .actives is the active outline or, while a conditional auxiliary suspends the frames below its
+# main frame m, the head of m: in both cases a prefix of the active outline
+PREFIX = ("len({f}.actives) <= len({f}.active.outline) and forall(lambda k: implies(0 <= k and k < len({f}.actives), "
+          "{f}.actives[k] is {f}.active.outline[k]))")
+# "the entered frames of framer {f} are exactly the members of outline {o}" in two halves (the frames of an outline
+# belong to the framer): every frame of the outline is entered; every entered frame of the framer is in the outline
+BR_IN = "forall(lambda k: implies(0 <= k and k < len({o}), {o}[k].entered))"
+BR_ONLY = ("forall(Ref('Frame'), lambda f: implies(f.framer is {f} and f.entered, member({o}, f)), "
            "trigger=lambda f: f.entered)")
-BRACKET_OLD = ("forall(Ref('Frame'), lambda f: implies(f.framer is {f}, iff(f.entered, member({f}.active.outline, f))), "
-               "trigger=lambda f: f.entered)")
 REG.assume_note("C06 bracket invariant: outlines are duplicate free (paths of the frame tree; structural, C05) - assumed "
                 "for near.framer.active.outline, near.framer.actives and far.outline in Transiter.action[v1] / "
                 "Framer.exitAll[v1]")
@@ -184,16 +201,19 @@ contract(FA, "Transiter.action", "C06", params=dict(_t.params), requires=list(_t
          assumes=list(_t.assumes) + [
              FR + ".active is not None",
              # the bracket invariant at entry: entered frames of the framer == members of the FULL active outline
-             BRACKET_OLD.format(f=FR), "not %s.altbad" % FR,
+             BR_IN.format(o=FR + ".active.outline"), BR_ONLY.format(f=FR, o=FR + ".active.outline"),
+             "not %s.altbad" % FR,
              DISTINCT.format(l=FR + ".active.outline"), DISTINCT.format(l=FR + ".actives"),
              DISTINCT.format(l="far.outline"),
              # frames of the active outline belong to the framer (as assumed for .actives and far.outline)
              B.OWN_FR.format(l=FR + ".active.outline"),
+             PREFIX.format(f=FR),
          ],
          modifies=list(_t.modifies), loops={k: dict(inv=list(v["inv"])) for k, v in _t.loops.items()},
          findings={"suspended": SUSPENDED.format(f=FR)},
          ensures=[
-             "c06_bracket(implies(result is far, %s))" % BRACKET.format(f=FR, o="far.outline"),
+             "c06_bracket(implies(result is far, %s))" % BR_IN.format(o="far.outline"),
+             "c06_bracket(implies(result is far, %s))" % BR_ONLY.format(f=FR, o="far.outline"),
              "implies(result is None, forall(Ref('Frame'), lambda f: f.entered == old(f.entered), "
              "trigger=lambda f: f.entered))",
              "c06_alternation(not %s.altbad)" % FR,
@@ -204,9 +224,11 @@ contract(FA, "Transiter.action", "C06", params=dict(_t.params), requires=list(_t
 _e = _first("Framer.exitAll")
 contract(FF, "Framer.exitAll", "C06,C03", params=dict(_e.params), requires=list(_e.requires),
          assumes=list(_e.assumes) + [
-             "self.active is not None", BRACKET_OLD.format(f="self"), "not self.altbad",
+             "self.active is not None", BR_IN.format(o="self.active.outline"),
+             BR_ONLY.format(f="self", o="self.active.outline"), "not self.altbad",
              DISTINCT.format(l="self.active.outline"), DISTINCT.format(l="self.actives"),
              B.OWN.format(l="self.active.outline"),
+             PREFIX.format(f="self"),
          ],
          modifies=list(_e.modifies),
          findings={"suspended": SUSPENDED.format(f="self")},
